@@ -383,7 +383,9 @@ func c08Stores(c *Ctx, p *Prog, m *Model) {
 							probs = append(probs, fmt.Sprintf("stores to %s.%s at %s", tn, structOf(a.X.Type()).Field(a.Field).Name(), p.Pos(instrPos(x))))
 						}
 					case *ssa.Global:
-						probs = append(probs, fmt.Sprintf("stores to package variable %s at %s", a.Name(), p.Pos(instrPos(x))))
+						if !underLock(x) {
+							probs = append(probs, fmt.Sprintf("stores to package variable %s at %s", a.Name(), p.Pos(instrPos(x))))
+						}
 					case *ssa.IndexAddr:
 						ot := &originTracer{p: p, m: m, seen: map[string]bool{}}
 						o := map[string]bool{}
@@ -410,7 +412,9 @@ func c08Stores(c *Ctx, p *Prog, m *Model) {
 					}
 				case *ssa.MapUpdate:
 					nst++
-					probs = append(probs, fmt.Sprintf("map update at %s", p.Pos(instrPos(x))))
+					if !underLock(x) {
+						probs = append(probs, fmt.Sprintf("map update at %s", p.Pos(instrPos(x))))
+					}
 				case ssa.CallInstruction:
 					if isBuiltinCall(x, "delete") || isBuiltinCall(x, "clear") {
 						probs = append(probs, fmt.Sprintf("delete/clear at %s", p.Pos(instrPos(x))))
@@ -603,4 +607,48 @@ func c08Pools(c *Ctx, p *Prog, m *Model) {
 		}
 	}
 	r.Ok("R08.3", "escape:scan", "-", "no store of a *PrintCtx into a field, package variable or non-local slice (%d functions scanned)", len(p.RepoFuncs()))
+}
+
+// underLock: the instruction is dominated by an exclusive Lock() of a package-level mutex in the same function and every
+// Unlock() of it is deferred or comes after the instruction.
+func underLock(in ssa.Instruction) bool {
+	fn := in.Parent()
+	var locks, unlocks []ssa.CallInstruction
+	for _, cs := range callsIn(fn) {
+		cal := calleeOf(cs)
+		if cal == nil {
+			continue
+		}
+		switch cal.String() {
+		case "(*sync.Mutex).Lock", "(*sync.RWMutex).Lock":
+			locks = append(locks, cs)
+		case "(*sync.Mutex).Unlock", "(*sync.RWMutex).Unlock":
+			if _, isDefer := cs.(*ssa.Defer); !isDefer {
+				unlocks = append(unlocks, cs)
+			}
+		}
+	}
+	for _, l := range locks {
+		if _, isG := l.Common().Args[0].(*ssa.Global); !isG {
+			continue
+		}
+		dom := (l.Block() == in.Block() && after(l, in) && !inLoop(l.Block())) || (l.Block() != in.Block() && l.Block().Dominates(in.Block()))
+		if !dom {
+			continue
+		}
+		ok := true
+		for _, u := range unlocks {
+			if u.Common().Args[0] != l.Common().Args[0] {
+				continue
+			}
+			// an unlock that can run between the lock and the store
+			if after(l, u) && after(u, in) {
+				ok = false
+			}
+		}
+		if ok {
+			return true
+		}
+	}
+	return false
 }
